@@ -269,6 +269,28 @@ func (u *Unit) oblige(s *State, name string, props []string, kind, goal string, 
 	if pos.IsValid() {
 		o.Pos = u.p.prog.Fset.Position(pos)
 	}
+	if u.fc != nil && s.cells != nil {
+		// replay terms and guide formulas are evaluated in the state of the obligation (locals are visible)
+		for _, kv := range u.fc.ReplayKV {
+			env := u.bodyEnv(s, u.fn)
+			env.paramsEntry = true
+			if t, err := env.term(kv[1]); err == nil {
+				o.Values = append(o.Values, [2]string{kv[0], t.S})
+			}
+		}
+		for _, c := range u.fc.Clauses {
+			if c.Kind != "guide" {
+				continue
+			}
+			env := u.bodyEnv(s, u.fn)
+			env.paramsEntry = true
+			if g, err := env.formula(c.Expr); err == nil {
+				o.Guides = append(o.Guides, g)
+			} else {
+				o.Guides = append(o.Guides, "false")
+			}
+		}
+	}
 	u.obligs = append(u.obligs, o)
 	s.assume(goal)
 }
@@ -435,7 +457,7 @@ func (u *Unit) checkInvariants(s *State, fn *ssa.Function, l *Loop, phase string
 		if err != nil {
 			panic(abortUnit{fmt.Sprintf("%s:%d: %v", c.File, c.Line, err)})
 		}
-		name := fmt.Sprintf("%s.%s.loop%d.%s", labelWithFn(c.Label, u.fnShort(fn)), "inv", l.ord, phase)
+		name := fmt.Sprintf("%s.loop%d.%s", labelWithFn(c.Label, u.fnShort(fn)), l.ord, phase)
 		u.oblige(s, name, c.Props, "invariant", g, l.header.Instrs[0].Pos())
 	}
 }
@@ -598,7 +620,9 @@ func (u *Unit) step(s *State, in ssa.Instruction) {
 		case *types.Slice:
 			sl := u.val(s, x.X)
 			u.safety(s, in, "index", fmt.Sprintf("(and (<= 0 %s) (< %s (sl_len %s)))", idx.S, idx.S, sl.S))
-			s.addrs[x] = AddrElem{Term{S: "(sl_arr " + sl.S + ")", Sort: "Int"}, Term{S: fmt.Sprintf("(+ (sl_off %s) %s)", sl.S, idx.S), Sort: "Int"}, xt.Elem()}
+			ea := AddrElem{Term{S: "(sl_arr " + sl.S + ")", Sort: "Int"}, Term{S: fmt.Sprintf("(+ (sl_off %s) %s)", sl.S, idx.S), Sort: "Int"}, xt.Elem()}
+			s.addrs[x] = ea
+			u.sliceInvRead(s, x, ea)
 		case *types.Pointer:
 			arr := xt.Elem().Underlying().(*types.Array)
 			if _, isConst := x.Index.(*ssa.Const); !isConst {
